@@ -31,6 +31,7 @@ class HarnessError(Exception):
 
 
 _CUR = None  # the active Explorer (one per process)
+SYMTOKENS = {}
 
 
 def cur():
@@ -135,7 +136,10 @@ class SVal:
     __str__ = __repr__
 
     def __format__(self, spec):
-        return "<sym>"
+        # values formatted into strings (DataFrame.query f-strings) stay recoverable through a token
+        tok = f"__symval_{self.z.get_id()}__"
+        SYMTOKENS[tok] = self
+        return tok
 
     def __deepcopy__(self, memo):
         return self
